@@ -20,6 +20,10 @@ class ConfigProbeError(Exception):
     pass
 
 
+class Unrealisable(Exception):
+    """The abstract candidate has no concrete counterpart (e.g. an id >= target when the target is 2^256-1)."""
+
+
 def setup():
     """chdir into a fresh scratch directory (importing skepticoin.blockstore creates ./chain.db) and
     put the repository's working tree first on sys.path."""
@@ -314,6 +318,10 @@ class World:
         if not merkle_ok:
             mr = bytes([mr[0] ^ 1]) + mr[1:]
         scr = self.cfg.scrypt()
+        if not pow_ok and int.from_bytes(target, "big") >= (1 << 256) - (1 << 200):
+            raise Unrealisable("no id can reach a (nearly) maximal target")
+        if pow_ok and int.from_bytes(target, "big") < (1 << 236):
+            raise Unrealisable("target too small to mine in the harness")
         for nonce in range(nonce0, nonce0 + 100000):
             summary = T["BlockSummary"](height, parent_hash, mr, ts, target, nonce)
             try:
